@@ -112,7 +112,7 @@ Proof.
   unfold abs_names. rewrite Hl.
   destruct (inline_tcs sub) as [|i ics] eqn:Ei.
   - inversion H; subst. simpl. split; [reflexivity|]. left. auto.
-  - rewrite (existsb_none_false _ Hsome) in H. inversion H; subst. cbn [x_abstract x_related].
+  - rewrite (existsb_none_false _ Hsome) in H. rewrite Hl in H. inversion H; subst. cbn [x_abstract x_related].
     split; [reflexivity|]. right. split; [discriminate|].
     unfold some_conds. rewrite app_nil_r. split; reflexivity.
 Qed.
